@@ -423,6 +423,34 @@ func TestVerifC19(t *testing.T) {
 			return time.Time{}
 		})
 	}
+	// ---- A4: a healthy connection that no longer serves any region the client knows (its only region moved away, was split or
+	// merged onto another server, or its table was dropped) is still the client's to close
+	for _, variant := range []string{"moved", "split", "merged", "dropped"} {
+		for _, q := range []int{1, 4} {
+			name := fmt.Sprintf("A4/connection-without-regions/%s/q=%d", variant, q)
+			scenario(name, q, nil, func(e *c19Env, bus *hookBus) time.Time {
+				workload(e)
+				time.Sleep(2 * time.Second)
+				synctest.Wait()
+				regs := e.cl.OnlineRegions("t") // [,g) rs1  [g,p) rs1  [p,) rs2
+				switch variant {
+				case "moved":
+					e.cl.Move(regs[2], "rs1")
+				case "split":
+					e.cl.Split(regs[2], []byte("t"), "rs1", "rs1")
+				case "merged":
+					e.cl.Merge(regs[1], regs[2], "rs1")
+				case "dropped":
+					e.cl.DropTable("t")
+				}
+				e.get("q3") // answered "not serving" by rs2 over the healthy connection; the region is located again
+				e.put("x1")
+				time.Sleep(5 * time.Second)
+				synctest.Wait()
+				return time.Time{}
+			})
+		}
+	}
 	// ---- B: Close at every hook position
 	for _, q := range []int{1, 5} {
 		ref := scenario(fmt.Sprintf("B/reference/q=%d", q), q, nil, func(e *c19Env, bus *hookBus) time.Time {
